@@ -61,7 +61,7 @@ func keysOf(m map[string]bool) string {
 }
 
 func checkC14(r *core.Run) {
-	r.Explain = "Decided statically: (C14.nonblock) every send on MessageFuture.Done cannot block: the channel's only make site has capacity >= 1, or the send sits in a select with a default arm; (C14.table) a pending future is stored only when a waiter exists, the waiter's timeout arm and the write-failure path delete from the same table the store wrote, delivery removes the future after notifying; (C14.ids) the key stored is the ID of the message handed to WritePkg, delivery looks up the received frame's ID, and every message sent with a waiter takes its ID from one atomic counter object; (C14.timeout) the waiter has a timeout arm returning a non-nil error. NOT decided: schedules; connection loss while requests are pending (getty behaviour)."
+	r.Explain = "Decided statically: (C14.nonblock) every send on MessageFuture.Done cannot block: the channel's only make site has capacity >= 1, or the send sits in a select with a default arm; (C14.table) a pending future is stored only when a waiter exists, the waiter's timeout arm and the write-failure path delete from the same table the store wrote, delivery removes the future after notifying; (C14.ids) the key stored is the ID of the message handed to WritePkg, delivery looks up the received frame's ID, and every message sent with a waiter takes its ID from one atomic counter object; (C14.timeout) the waiter has a timeout arm returning a non-nil error, and every callback handed to the send together with a stored future reaches that waiter (directly or through a goroutine it starts). NOT decided: schedules; connection loss while requests are pending (getty behaviour)."
 	r.Trusted = []string{"go/types, go/cfg", "sync.Map", "C13.mirror ties RpcMessage.ID to the header's request id"}
 	w := r.W
 	mf := w.NamedType("pkg/protocol/message", "MessageFuture")
@@ -426,8 +426,70 @@ func checkC14(r *core.Run) {
 	}
 	r.Sites++
 	r.Check(len(counters) == 1 && nWaited >= 2, "C14.ids", "all waited-for messages share one id counter", "", keysOf(counters), "messages sent with a waiter take their ids from different sources {"+keysOf(counters)+"}: two in-flight requests can carry the same id and receive each other's reply")
+	// ---- every callback handed to the send (a future is stored for it) reaches the waiter, whose timeout arm
+	// removes the future: a callback that returns at once leaves the future of a lost reply in the table for good
+	if waiter != nil {
+		nCb := 0
+		for _, f := range w.SortedFuncs() {
+			if w.IsTestFile(f.Decl.Pos()) || !strings.HasSuffix(f.Pkg.PkgPath, "/pkg/remoting/getty") {
+				continue
+			}
+			info := f.Pkg.TypesInfo
+			for _, cs := range w.Calls(f) {
+				if cs.Static == nil || (cs.Static.Name() != "sendAsync" && cs.Static.Name() != "SendAsync" && cs.Static.Name() != "SendSync") || core.RecvNamed(cs.Static) == nil || core.RecvNamed(cs.Static).Obj().Name() != "GettyRemoting" {
+					continue
+				}
+				sig := cs.Static.Type().(*types.Signature)
+				for i := 0; i < sig.Params().Len() && i < len(cs.Call.Args); i++ {
+					if _, isFn := sig.Params().At(i).Type().Underlying().(*types.Signature); !isFn {
+						continue
+					}
+					arg := ast.Unparen(cs.Call.Args[i])
+					if isNilIdent(info, arg) || isObj(info, arg, paramByIndex(f, arg, info)) {
+						continue // no waiter: no future is stored; or the caller's own callback parameter (checked at its call sites)
+					}
+					var cb *types.Func
+					switch x := arg.(type) {
+					case *ast.SelectorExpr:
+						cb, _ = info.Uses[x.Sel].(*types.Func)
+					case *ast.Ident:
+						cb, _ = info.Uses[x].(*types.Func)
+					}
+					nCb++
+					r.Sites++
+					key := core.ShortKey(f.Obj) + " -> " + cs.Static.Name() + " callback " + core.ExprString(arg) + " ends in the waiter"
+					if cb == nil || w.Info(cb) == nil {
+						r.Undecided("C14.timeout", key, w.Pos(cs.Call.Pos()), "the callback is not a named function of the repository")
+						continue
+					}
+					r.Fn(w.Info(cb))
+					reaches := cb == waiter.Obj || w.CallPath(w.Info(cb), func(g *types.Func) bool { return g == waiter.Obj }, 3) != nil
+					r.Check(reaches, "C14.timeout", key, w.Pos(cs.Call.Pos()), "the callback waits (or starts a goroutine that waits) with the timeout that removes the future",
+						"a future is stored for this request but its callback never reaches "+core.ShortKey(waiter.Obj)+", the only place a timeout removes the future: when the reply is lost the entry stays in the pending table for ever")
+				}
+			}
+		}
+		if nCb < 2 {
+			r.Bad("C14.timeout", "INSTANCE-FLOOR callbacks handed to the send", "", "fewer than the two callback hand-overs (sync, async) confirmed by hand")
+		}
+	}
 	r.Floor("C14.nonblock", 2)
 	r.Floor("C14.table", 6)
 	r.Floor("C14.ids", 7)
 	r.Floor("C14.timeout", 1)
+}
+
+// paramByIndex returns the parameter object arg refers to, if arg is an identifier naming a parameter of f.
+func paramByIndex(f *core.FuncInfo, arg ast.Expr, info *types.Info) types.Object {
+	id, ok := ast.Unparen(arg).(*ast.Ident)
+	if !ok {
+		return nil
+	}
+	o := info.Uses[id]
+	for _, p := range paramObjs(f) {
+		if p == o {
+			return p
+		}
+	}
+	return nil
 }
